@@ -153,18 +153,21 @@ def run_jobs(jobs, deadline, skipped):
 
 
 class KwProber:
+    """reserved names: a packed module per role (many names per type) is the fast path; when it does not build, every suspect name is
+    generated in types of its own (one header per name) and judged alone, the single-name module is generated as the witness, and
+    the packed module without the failing names must build (so that no name hides behind another)"""
+
     def __init__(self, wd, tier, counter, pch):
         self.wd = wd
         self.tier = tier
         self.counter = counter
-        self.pch = pch  # {std: dir} or {}
+        self.pch = pch  # {std: dir} (quick) or {}
         self.seen_files = {}
         self.lock = threading.Lock()
+        self.stats = {}
 
-    def probe(self, lang, role, names, full=False):
-        """tool + every generated header alone. returns dict(status, text, base, fails, source)"""
-        src = U.kw_source(role, names)
-        d = os.path.join(self.wd, "kw", "%s-%s-%s" % (lang, role, sha(src)))
+    def _gen(self, lang, tagname, src):
+        d = os.path.join(self.wd, "kw", "%s-%s-%s" % (lang, tagname, sha(src)))
         os.makedirs(d, exist_ok=True)
         entry = os.path.join(d, "lib.rs")
         open(entry, "w").write(src)
@@ -172,60 +175,123 @@ class KwProber:
         shutil.rmtree(out, ignore_errors=True)
         r = run_tool(lang, entry, out)
         self.counter.add("tool_runs")
-        if r.returncode != 0:
-            return dict(status="reject", text=r.stderr or "", base=out, fails=[], source=src)
-        files = [f for f in headers_of(lang, out) if full or os.path.basename(f) not in RUNTIME_FILES]
+        return d, out, r
+
+    def _jobs(self, lang, out, files, plain):
         jobs = []
         for f in files:
             if lang == "cpp":
-                if not full and self.tier == "quick" and decl_implied_by_impl(out, f):
+                if not plain and decl_implied_by_impl(out, f):
                     continue
                 for std in STDS:
-                    pch = None if (full or self.tier != "quick") else self.pch.get(std)
-                    jobs.append(dict(lang=lang, std=std, rel=f, cmd=cmd_for(lang, std, os.path.join(out, f), out, pch),
+                    jobs.append(dict(lang=lang, std=std, rel=f, cmd=cmd_for(lang, std, os.path.join(out, f), out, None if plain else self.pch.get(std)),
                                      plain=cmd_for(lang, std, os.path.join(out, f), out)))
             else:
-                jobs.append(dict(lang=lang, std=None, rel=f, cmd=cmd_for(lang, None, os.path.join(out, f), out)))
-                jobs[-1]["plain"] = jobs[-1]["cmd"]
-        res = pmap(run_job, jobs) if full else [run_job(j) for j in jobs]
+                c = cmd_for(lang, None, os.path.join(out, f), out)
+                jobs.append(dict(lang=lang, std=None, rel=f, cmd=c, plain=c))
+        return jobs
+
+    def _run(self, lang, role, out, jobs, parallel=True):
+        res = pmap(run_job, jobs) if parallel else [run_job(j) for j in jobs]
         self.counter.add("evaluations", len(res))
         self.counter.add("evaluations_" + lang, len(res))
         with self.lock:
             for j in res:
-                self.seen_files[(lang, role, sha(open(os.path.join(out, j["rel"]), "rb").read()))] = 1
-        fails = [j for j in res if j["rc"] != 0]
-        if not full and not fails:
-            shutil.rmtree(d, ignore_errors=True)
-        return dict(status="fail" if fails else "ok", text="\n".join(j["text"] for j in fails), base=out, fails=fails, source=src, n=len(res), files=len(files))
+                self.seen_files[(lang, sha(open(os.path.join(out, j["rel"]), "rb").read()))] = 1
+        return res
 
-    def isolate(self, lang, role, names, first=None):
-        """{name: probe result} for every name that fails (or is rejected) in a module of its own; plus ('pack', names) entries for
-        packs that fail although none of their names fails alone"""
-        res = first or self.probe(lang, role, names)
-        if res["status"] == "ok":
-            return {}
-        if len(names) == 1:
-            return {names[0]: res}
-        out = {}
-        sus = U.suspects(names, res["text"], res["base"])
-        if sus and len(sus) < len(names):
-            singles = pmap(lambda n: self.probe(lang, role, [n]), sus)
-            confirmed = [n for n, r in zip(sus, singles) if r["status"] != "ok"]
-            for n, r in zip(sus, singles):
-                if r["status"] != "ok":
-                    out[n] = r
-            if confirmed:
-                rest = [n for n in names if n not in confirmed]
-                out.update(self.isolate(lang, role, rest))
-                return out
-        h = len(names) // 2
-        a = self.isolate(lang, role, names[:h])
-        b = self.isolate(lang, role, names[h:])
-        out.update(a)
-        out.update(b)
-        if not a and not b:
-            out[("pack", tuple(names))] = res
-        return out
+    def pack(self, lang, role, names, full=False, parallel=True):
+        """packed module: tool + every generated file alone. `full`: the official check (plain command, runtime files included)"""
+        src = U.kw_source(role, names)
+        d, out, r = self._gen(lang, role, src)
+        if r.returncode != 0:
+            return dict(status="reject", text=r.stderr or "", base=out, fails=[], source=src)
+        plain = full or self.tier != "quick"
+        files = [f for f in headers_of(lang, out) if full or os.path.basename(f) not in RUNTIME_FILES]
+        res = self._run(lang, role, out, self._jobs(lang, out, files, plain), parallel)
+        fails = [j for j in res if j["rc"] != 0]
+        return dict(status="fail" if fails else "ok", text="\n".join(j["text"] for j in fails), base=out, fails=fails, source=src)
+
+    def singles(self, lang, role, names):
+        """{name: result} for every name of `names` whose own types do not build (or which the backend refuses)"""
+        plain = self.tier != "quick"
+        src = U.kw_single_source(role, names)
+        d, out, r = self._gen(lang, role + "-singles", src)
+        bad = {}
+        if r.returncode != 0:
+            # a refused name takes the whole module down: offer every name alone
+            for n, res in zip(names, pmap(lambda n: self.single(lang, role, n, None), names)):
+                if res["status"] != "ok":
+                    bad[n] = res
+            return bad
+        files = [f for f in headers_of(lang, out) if os.path.basename(f) not in RUNTIME_FILES]
+        owner = {}
+        for n in names:
+            for t in U.kw_types(role, n):
+                owner[t] = n
+        jobs = []
+        for j in self._jobs(lang, out, files, plain):
+            j["name"] = owner.get(os.path.basename(type_of(j["rel"])))
+            if j["name"] is not None:
+                jobs.append(j)
+        res = self._run(lang, role, out, jobs)
+        failing = {}
+        for j in res:
+            if j["rc"] != 0:
+                failing.setdefault(j["name"], []).append(j)
+        for n, res1 in zip(sorted(failing), pmap(lambda n: self.single(lang, role, n, (out, failing[n])), sorted(failing))):
+            if res1["status"] != "ok":
+                bad[n] = res1
+        return bad
+
+    def single(self, lang, role, n, known):
+        """the single-name module (= the witness). `known` = (out dir, failing jobs) of the same types generated inside a bigger module:
+        when the single-name module's files are byte-identical the verdict carries over, otherwise they are compiled"""
+        src = U.kw_single_source(role, [n])
+        d, out, r = self._gen(lang, role + "-1", src)
+        if r.returncode != 0:
+            return dict(status="reject", text=r.stderr or "", base=out, fails=[], source=src)
+        files = [f for f in headers_of(lang, out) if os.path.basename(f) not in RUNTIME_FILES]
+        if known:
+            kout, kjobs = known
+            same = all(os.path.exists(os.path.join(kout, f)) and open(os.path.join(kout, f), "rb").read() == open(os.path.join(out, f), "rb").read() for f in files)
+            if same:
+                self.counter.add("single_name_modules_identical_to_packed_types")
+                fails = [dict(j, plain=cmd_for(lang, j["std"], os.path.join(out, j["rel"]), out)) for j in kjobs]
+                return dict(status="fail", text="\n".join(j["text"] for j in fails), base=out, fails=fails, source=src)
+        res = self._run(lang, role, out, self._jobs(lang, out, files, self.tier != "quick"), parallel=False)
+        fails = [j for j in res if j["rc"] != 0]
+        return dict(status="fail" if fails else "ok", text="\n".join(j["text"] for j in fails), base=out, fails=fails, source=src)
+
+    def analyse(self, lang, role, names):
+        """returns (first pack result, {name | ('pack', names): result})"""
+        t = time.time()
+        first = self.pack(lang, role, names, full=True)
+        bad = {}
+        if first["status"] != "ok":
+            cur, res = list(names), first
+            for _round in range(4):
+                sus = U.suspects(cur, res["text"], res["base"])
+                if not sus or res["status"] == "reject" and len(sus) == len(cur):
+                    sus = list(cur)
+                found = self.singles(lang, role, sus)
+                bad.update(found)
+                cur = [n for n in cur if n not in found]
+                if not cur:
+                    break
+                res = self.pack(lang, role, cur)
+                if res["status"] == "ok":
+                    break
+                if not found and len(sus) == len(cur):
+                    # every name builds alone but the packed module does not
+                    bad[("pack", tuple(cur))] = res
+                    break
+            else:
+                bad[("pack", tuple(cur))] = res
+        self.stats["%s/%s" % (lang, role)] = {"names": len(names), "failing": sum(1 for k, r in bad.items() if r["status"] == "fail" and isinstance(k, str)),
+                                             "refused_by_backend": sorted(k for k, r in bad.items() if r["status"] == "reject" and isinstance(k, str)),
+                                             "packed_module": first["status"], "wall_s": round(time.time() - t, 1)}
+        return first, bad
 
 
 # ---------------------------------------------------------------------------------------------
@@ -248,11 +314,25 @@ def _ffix_js_entry(b, d, info=None):
     offered to the JS backend alone (methods are independent units) and the accepted ones form the JS input"""
     os.makedirs(d, exist_ok=True)
 
+    decl = {st.name: st.decl() for st in b["types"]["structs"]}
+
+    def small_types(m):
+        # only the structs the method mentions (transitively): every probe would otherwise regenerate the whole struct universe
+        text, need, grew = F.rust_method(m), set(), True
+        while grew:
+            grew = False
+            for name, dtext in decl.items():
+                if name not in need and re.search(r"\b%s\b" % re.escape(name), text):
+                    need.add(name)
+                    text += dtext
+                    grew = True
+        return dict(b["types"], structs=[st for st in b["types"]["structs"] if st.name in need], owners=[m["owner"]])
+
     def one(m):
         pd = os.path.join(d, "m%d" % m["i"])
         os.makedirs(pd, exist_ok=True)
         p = os.path.join(pd, "lib.rs")
-        open(p, "w").write(F.render_crate(b["types"], [m]))
+        open(p, "w").write(F.render_crate(small_types(m), [m]))
         r = run_tool("js", p, os.path.join(pd, "out"))
         shutil.rmtree(pd, ignore_errors=True)
         return (m, r.returncode, (r.stderr or "").strip().splitlines()[:2])
@@ -611,36 +691,33 @@ def run(tier):
         pch = {s: d for (s, d) in pmap(mk_pch, STDS) if d}
     prober = KwProber(wd, tier, cnt, pch)
     kw_results = {}
-    kw_stats = {}
     for lang in ("c", "cpp", "js"):
         for role in U.ROLES:
             names = role_names[role]
             if time.time() > deadline:
                 skipped.append(dict(kind="kw", lang=lang, rel=role))
                 continue
-            first = prober.probe(lang, role, names, full=True)
+            first, bad = prober.analyse(lang, role, names)
+            kw_results[(lang, role)] = bad
             if first["status"] != "reject":
                 for (f, t, why) in closure_problems(lang, first["base"]):
                     rep.violation("C09|%s|%s|kw:%s|%s -> %s (%s)" % (lang, "import" if lang == "js" else "include", role, f, t, why),
                                   {"unit": "kw:" + role, "lang": lang, "stage": "closure", "source": first["source"], "file": f, "target": t, "why": why, "configs": []},
                                   "%s output of the %s keyword pack: `%s` refers to `%s`: %s" % (lang, role, f, t, why))
-            bad = prober.isolate(lang, role, names, first=first)
-            kw_results[(lang, role)] = bad
-            kw_stats["%s/%s" % (lang, role)] = {"names": len(names), "failing": sum(1 for k, r in bad.items() if r["status"] == "fail"),
-                                               "rejected_by_backend": sorted(k for k, r in bad.items() if r["status"] == "reject" and isinstance(k, str))}
+    kw_stats = prober.stats
     timing["keywords"] = round(time.time() - tk, 1)
     for (lang, role), bad in sorted(kw_results.items()):
         for k, r in sorted(bad.items(), key=lambda kv: str(kv[0])):
             if r["status"] == "reject":
                 continue
-            j = r["fails"][0]
+            j = sorted(r["fails"], key=lambda x: (len(x["rel"]), x["rel"], x["std"] or ""))[0]
             if isinstance(k, tuple):
                 key = "C09|%s|keyword-pack|%s|%s" % (lang, role, sha(" ".join(k[1])))
                 what = "%s output of a module using %d reserved names as %s does not build although each name alone does: %s" % (lang, len(k[1]), role, U.first_errors(j["text"], 1))
             else:
                 key = "C09|%s|%s|%s|%s" % (lang, U.name_class(lang, k), role, k)
                 what = "%s output does not build when a %s is named `%s` (%s): %s" % (lang, role, k, " ".join(os.path.basename(x) if x.startswith("/") else x for x in j["plain"]), U.first_errors(j["text"], 1))
-            w = {"unit": "kw:" + role, "lang": lang, "std": j["std"], "source": r["source"], "file": j["rel"], "cmd": " ".join(j["plain"]), "errors": U.first_errors(r["text"], 6),
+            w = {"unit": "kw:" + role, "lang": lang, "std": j["std"], "source": r["source"], "file": j["rel"], "cmd": " ".join(j["plain"]), "errors": U.first_errors(j["text"], 6),
                  "failing_files": sorted({"%s%s" % (x["rel"], (" -std=" + x["std"]) if x["std"] else "") for x in r["fails"]}), "configs": []}
             rep.violation(key, w, what)
 
